@@ -401,6 +401,9 @@ func driveDec(args map[string]string) error {
 		return err
 	}
 	seed, n, mode := uint64(argInt(args, "seed", 1)), argInt(args, "n", 1000), argStr(args, "mode", "c05")
+	if mode == "deep" {
+		return driveDecDeep(out, argInt(args, "stride", 1))
+	}
 	var wg sync.WaitGroup
 	var nsteps, nbytes, nfd atomic.Int64
 	workers := runtime.NumCPU()
@@ -467,4 +470,46 @@ func driveDec(args map[string]string) error {
 func init() {
 	commands["replay-dec"] = replayDec
 	commands["drive-dec"] = driveDec
+}
+
+// driveDecDeep: documents nested around the depth limit, read by tokens, as one value,
+// skipped, and with the depth split between tokens and a value.
+func driveDecDeep(out *sink, stride int) error {
+	id, seq := 0, 0
+	emit := func(doc []byte, ops []string, kind string) {
+		seq++
+		if (seq-1)%stride != 0 {
+			return
+		}
+		id++
+		sc := decSched{Kind: kind}
+		steps := decRun(sc.env(doc), false, false, ops)
+		out.put(decCase{ID: id, Prop: "C20", In: ints(doc), AI: false, AD: false, Sched: sc.norm(), Steps: tuples(steps)})
+	}
+	rep := func(op string, n int) []string {
+		o := make([]string, n)
+		for i := range o {
+			o[i] = op
+		}
+		return o
+	}
+	arr := func(i int) bool { return false }
+	obj := func(i int) bool { return true }
+	for _, d := range []int{10000, 10001} {
+		for pi, pat := range []func(int) bool{arr, obj} {
+			doc := nested(d, pat, "")
+			per := 1
+			if pi == 1 {
+				per = 2 // "{" and the name per level
+			}
+			emit(doc, []string{"val", "tok"}, "buffer")
+			emit(doc, []string{"skip", "tok"}, "chunks")
+			emit(doc, append(rep("tok", per*d+4), "ptr"), "buffer")
+			for _, k := range []int{1, 5000, 9999} { // k levels by tokens, the rest as one value
+				emit(doc, append(rep("tok", per*k), "val", "tok", "skip"), "chunks")
+			}
+		}
+	}
+	summary(map[string]any{"cases": id})
+	return nil
 }
